@@ -21,6 +21,8 @@
 (*  kind "power-exact"  estimate^4 of an integer instance = |A^T A v|^2 /  *)
 (*                |v|^2 after the un-normalised iteration, <= lam_max^2    *)
 (*  kind "cgfinal"  energy error after dim steps <= 2^-26 x initial        *)
+(*  kind "stepsize" a default step-size rule: the chosen steps satisfy the *)
+(*                documented admissibility condition (and equal layer C)   *)
 (*                                                                         *)
 (* TOTAL: a rejected event prints <<"FAIL", line, id, clauses>> and        *)
 (* validation continues; TraceAccepted checks every line was consumed.     *)
@@ -96,8 +98,16 @@ PowerExactClauses(e) ==
 \* e0, eN quantised relative to e0 with 30 bits
 CGFinalClauses(e) == IF e.eN > 16 THEN {"not-exact-after-dim"} ELSE {}
 
+\* default step-size rules: obs = the constrained quantity (tau sigma |L|^2 resp. tau sum sigma_i |L_i|^2) snapped
+\* on the lattice of the expected value P (NaN if off), obsq = the same number in units of 2^-20
+StepsizeClauses(e) ==
+  (IF e.branch # "both" /\ ~(e.obsq > 0 /\ e.obsq < (IF e.rule = "pdhg" THEN 1048576 ELSE 4194304))
+     THEN {"inadmissible"} ELSE {})
+  \cup (IF e.obs # e.P THEN {"textbook"} ELSE {})
+
 Clauses(e) ==
   CASE e.kind = "pair" -> PairClauses(e)
+    [] e.kind = "stepsize" -> StepsizeClauses(e)
     [] e.kind = "mono" -> MonoClauses(e)
     [] e.kind = "conv" -> ConvClauses(e)
     [] e.kind = "power" -> PowerClauses(e)
